@@ -184,7 +184,7 @@ def report_ext(r, tier):
 
 
 def parse_all(r, tier, big=True):
-    return (streams.length_patterns(r) + streams.sdes_many_chunks(r) + streams.sdes_priv_utf8(r) + report_ext(r, tier) + parse_typed(r, tier) + parse_custom(r, tier) + streams.sdes_short_bodies(r, tier)
+    return (streams.midsize_padded(r) + streams.congruent_lengths(r) + streams.length_patterns(r) + streams.sdes_many_chunks(r) + streams.sdes_priv_utf8(r) + report_ext(r, tier) + parse_typed(r, tier) + parse_custom(r, tier) + streams.sdes_short_bodies(r, tier)
             + streams.sdes_wf_variants(r, 300 if tier == "quick" else 6000) + parse_compound(r, tier)
             + parse_fci(r, tier) + streams.rb_stream(r, tier) + (streams.big_inputs(r) if big else []))
 
@@ -299,7 +299,7 @@ def streams_for(pid, r, tier):
     if pid in ("C06", "C07", "C16"):
         return build_stream(r, tier, big=(pid == "C16" or tier == "thorough"))
     if pid == "C08":
-        return streams.length_patterns(r) + report_ext(r, tier) + parse_typed(r, tier) + parse_custom(r, tier, 0.15) + pad_stream(r, "quick") + big_light(r)
+        return streams.midsize_padded(r) + streams.congruent_lengths(r) + streams.length_patterns(r) + report_ext(r, tier) + parse_typed(r, tier) + parse_custom(r, tier, 0.15) + pad_stream(r, "quick") + big_light(r)
     if pid == "C09":
         return (report_ext(r, tier) + parse_typed(r, tier, ["sr", "rr", "app", "bye", "tfb", "pfb", "unknown", "packet"])
                 + streams.rb_stream(r, tier))
@@ -308,7 +308,7 @@ def streams_for(pid, r, tier):
     if pid == "C11":
         return parse_compound(r, tier)
     if pid == "C12":
-        out = [x for x in streams.length_patterns(r) if x[1]["kind"] == "packet"] + streams.typed_stream("packet", r, tier)
+        out = [x for x in streams.length_patterns(r) + streams.congruent_lengths(r) + streams.midsize_padded(r) if x[1]["kind"] == "packet"] + streams.typed_stream("packet", r, tier)
         for k in streams.TYPED + ["unknown"]:
             out += [streams.P("packet", m["bytes"]) for _, m in streams.structured(k, r, 150 if tier == "quick" else 1500)]
         return out
@@ -327,7 +327,7 @@ def streams_for(pid, r, tier):
                         out.append(streams.P("packet", gen.encode(lf), member_of=True))
         return out
     if pid == "C15":
-        return parse_fci(r, tier) + parse_typed(r, tier, ["tfb", "pfb"]) + pad_stream(r, "quick", ["tfb", "pfb"])
+        return [x for x in streams.midsize_padded(r) if x[1]["kind"] in ("tfb", "pfb")] + parse_fci(r, tier) + parse_typed(r, tier, ["tfb", "pfb"]) + pad_stream(r, "quick", ["tfb", "pfb"])
     if pid == "C18":
         return parse_all(r, tier, big=False) + big_light(r)
     if pid == "C19":
